@@ -100,7 +100,7 @@ package moq
 //@   effect io-write
 
 //@ func moq.Mocker.methodData -> md
-//@   props C02 C20
+//@   props C02 C20 C12
 //@   safety C19
 //@   modifies H:registry.Package#, M:string:*registry.Package#, H:registry.Var#, H:registry.MethodScope#.vars, A:*registry.Var#, M:string:bool#, A:template.ParamData#
 //@   requires m != nil && m.registry != nil && f != nil && isType(f.Type(), *types.Signature) && wfK(m.registry)
@@ -115,6 +115,8 @@ package moq
 //@   loop 2 invariant idx: i >= 0
 //@   loop 2 invariant results-so-far: forall(k, 0 <= k && k < i ==> allocated(results[k].Var) && results[k].Var.vr == sigOf(f).Results().At(k) && !results[k].Variadic)
 //@   loop 2 invariant params-kept: forall(k, 0 <= k && k < len(params) ==> allocated(params[k].Var) && params[k].Var.vr == sigOf(f).Params().At(k))
+//@   -- C12: parameters and results of one method are allocated in ONE scope (the loop invariants scope-ok
+//@   -- name it), so that result names are checked against parameter names and imports rename both
 //@   ensures name: md.Name == f.Name()
 //@   ensures one-param-per-signature-param: len(md.Params) == sigOf(f).Params().Len()
 //@   ensures one-result-per-signature-result: len(md.Returns) == sigOf(f).Results().Len()
